@@ -76,7 +76,11 @@ def date(  # noqa: PLR0912 PLR0911
         if dat in ("now", "today"):
             dat = datetime.datetime.now()
         elif dat.isdigit():
-            dat = datetime.datetime.fromtimestamp(int(dat))
+            try:
+                dat = datetime.datetime.fromtimestamp(int(dat))
+            except (OverflowError, OSError):
+                # Not a timestamp this platform can handle. Same as for integers.
+                return str(dat)
         else:
             try:
                 dat = parser.parse(dat)
